@@ -46,7 +46,8 @@ class Recorder:
         rec = self
         A = _agents.Agent
         self._orig = {"add": A.add_computation, "periodic": A.set_periodic_action, "run": A._run, "start": A.start,
-                      "subc": Discovery.subscribe_computation, "suba": Discovery.subscribe_agent, "subr": Discovery.subscribe_replica}
+                      "subc": Discovery.subscribe_computation, "suba": Discovery.subscribe_agent, "subr": Discovery.subscribe_replica,
+                      "subaa": Discovery.subscribe_all_agents}
 
         def add_computation(agent, computation, comp_name=None, publish=True):
             name = comp_name or computation.name
@@ -73,7 +74,25 @@ class Recorder:
 
         def _run(agent):
             rec.owner[agent.name] = rec.tid()
+            # the agent's own discovery computation is put into the computations table directly (Agent._on_start), not through
+            # add_computation: its message handling is a callback of one of the agent's computations like any other
+            dc = getattr(getattr(agent, "discovery", None), "discovery_computation", None)
+            if dc is not None and not getattr(dc, "_verif_wrapped", False):
+                dc._verif_wrapped = True
+                dc.on_message = rec.wrap(agent.name, dc.name, "on_message", dc.on_message)
+                handlers = getattr(dc, "_msg_handlers", None)
+                if isinstance(handlers, dict):
+                    for mt, h in list(handlers.items()):
+                        handlers[mt] = rec.wrap(agent.name, dc.name, "handler", h)
             return rec._orig["run"](agent)
+
+        def sub_all(orig_name):
+            def subscribe_all(disc, cb=None, *a, **k):
+                who = getattr(rec._agent_of, "v", None)
+                if cb is not None and who is not None:      # registered by a computation of that agent (e.g. the replication computation)
+                    cb = rec.wrap(who[0], who[1], "discovery_cb", cb)
+                return rec._orig[orig_name](disc, cb, *a, **k)
+            return subscribe_all
 
         def sub(orig_name):
             def subscribe(disc, item, cb=None, one_shot=False):
@@ -87,12 +106,14 @@ class Recorder:
             return rec._orig["start"](agent, *a, **k)
         A.add_computation, A.set_periodic_action, A._run, A.start = add_computation, set_periodic_action, _run, start
         Discovery.subscribe_computation, Discovery.subscribe_agent, Discovery.subscribe_replica = sub("subc"), sub("suba"), sub("subr")
+        Discovery.subscribe_all_agents = sub_all("subaa")
 
     def uninstall(self):
         A = _agents.Agent
         A.add_computation, A.set_periodic_action, A._run, A.start = self._orig["add"], self._orig["periodic"], self._orig["run"], self._orig["start"]
         Discovery.subscribe_computation, Discovery.subscribe_agent, Discovery.subscribe_replica = \
             self._orig["subc"], self._orig["suba"], self._orig["subr"]
+        Discovery.subscribe_all_agents = self._orig["subaa"]
 
 
 def threaded_solve(dcop, algo_def, cg, dist, infinity=10000, timeout=20, switch=1e-5, replication=None, watchdog=45, scenario=None,
